@@ -138,10 +138,10 @@ static int al_count(void* p, int kind) {
   return n;
 }
 
-/* number of blocks that existed before the window and were freed inside it */
-static int al_nfree_preexisting(void) {
+/* number of blocks that existed before the window and were freed inside it, not counting the block `exempt` */
+static int al_nfree_preexisting(void* exempt) {
   int n = 0;
-  for (int i = 0; i < al_nrecs; i++) if (al_recs[i].kind == 0) n++;
+  for (int i = 0; i < al_nrecs; i++) if (al_recs[i].kind == 0 && al_recs[i].p != (char*)exempt) n++;
   return n;
 }
 
